@@ -361,6 +361,36 @@ def work_history(chunk, st):
 
 
 # ---- built-in policies
+# ---- -M while one probe connection of the modulus test fails to come up: the policy records what the documented probe sequence measures
+# with exactly that probe lost (sequence model in props/c12.py), for both group-exchange methods
+def work_lost_probe_make(chunk, st):
+    import re
+    from props import c06, c12
+    for sub, style, banner, fconn, fmsg, fault in chunk:
+        conn_alg, _n = c12._baseline(sub, style, banner)
+        alg = conn_alg[fconn]
+        k = len([i for i in conn_alg if conn_alg[i] == alg and i < fconn])
+        srv = c12.make_server(sub, style, 'both', banner)
+        want = c12.model_audit(srv.gex, banner, (alg, k, 'setup'))
+        path = H.tmp_path('c05-lost-probe-%d.policy' % os.getpid())
+        if os.path.exists(path):
+            os.unlink(path)
+        res = H.audit(srv, opts=['-n', '--skip-rate-test', '-M', path], faults={(srv.label, fconn, fmsg): fault})
+        root = ('make-lost-probe', sub, style, banner, fconn, fmsg, fault)
+        st.execution(res.world, outcome=('make-lost-probe', res.status), root=root, nontrivial=root)
+        d = {'moduli': list(sub), 'style': style, 'lost_probe': [alg, k], 'fault': [fconn, fmsg] + list(fault), 'status': res.status}
+        if res.status != 0 or not os.path.exists(path):
+            st.violation('make-policy-failed:lost-probe', dict(d, stdout=res.stdout[-200:]))
+            continue
+        m = re.search(r'^dh_modulus_sizes = (.*)$', open(path).read(), re.M)
+        rec = json.loads(m.group(1)) if m else {}
+        exp = {a: v[1] for a, v in want.items() if v[1] is not None}
+        if rec != exp:
+            st.violation('made-policy-records-wrong-modulus-size:one-lost-probe', dict(d, recorded=rec, sizes_the_sequence_measures=exp))
+        os.unlink(path)
+    st.sample({'make_policy_lost_probe': [list(chunk[0][0]), chunk[0][3], chunk[0][4]]}, cap=4)
+
+
 def builtin_tasks():
     return sorted(runner.M['builtin_policies'].BUILTIN_POLICIES.keys())
 
@@ -440,6 +470,8 @@ def run(tier, seed):
     par.pmap(work_builtin, builtin_tasks(), stats=st, chunk=4)
     hist = history_tasks(ps, tier)
     par.pmap(work_history, hist, stats=st, chunk=2)
+    from props import c06 as _c06
+    par.pmap(work_lost_probe_make, _c06.gex_lost_probe_tasks(), stats=st, chunk=6)
     vcases = []
     for spec in H.pick(ps, seed, 6 if tier == 'quick' else 30):
         path = H.tmp_path('c05-val-%d.policy' % len(vcases))
